@@ -35,9 +35,10 @@ CheckEvent(e, ev) ==
   /\ \A k \in 1..n : LET p == ev.pipes[k] IN
        /\ Bump(RQuery, IF p.prio = "Q" THEN 1 ELSE 0) /\ Bump(RLater, IF p.prio = "Q" THEN 0 ELSE Len(p.ops) - 1)
        /\ Flag(e, "C15.OneSegmentEach", \A i \in 1..Len(p.ops) : p.ops[i].nseg = 1, <<"tick", ev.t, p.id>>)
+       /\ Flag(e, "C15.AtLeastOneOperator", Len(p.ops) >= 1, <<"tick", ev.t, p.id, p.prio>>)          \* (and the clauses below stay defined for an empty pipeline)
        /\ Flag(e, "C15.QueryShape", p.prio = "Q" => Len(p.ops) = 1 /\ <<p.ops[1].cpu, p.ops[1].law, p.ops[1].read>> = QueryProto /\ p.ops[1].par = <<>>, <<"tick", ev.t, p>>)
        /\ Flag(e, "C15.ChainShape", p.prio # "Q" => Len(p.ops) >= 1 /\ \A i \in 1..Len(p.ops) : p.ops[i].par = (IF i = 1 THEN <<>> ELSE <<i - 1>>), <<"tick", ev.t, p>>)
-       /\ Flag(e, "C15.FirstIsIoHeavy", p.prio # "Q" => <<p.ops[1].cpu, p.ops[1].law, p.ops[1].read>> = IoHeavy, <<"tick", ev.t, p.ops[1]>>)
+       /\ Flag(e, "C15.FirstIsIoHeavy", (p.prio # "Q" /\ Len(p.ops) >= 1) => <<p.ops[1].cpu, p.ops[1].law, p.ops[1].read>> = IoHeavy, <<"tick", ev.t, p.id>>)
        /\ Flag(e, "C15.NoFixedMemory", \A i \in 1..Len(p.ops) : p.ops[i].mem = -1, <<"tick", ev.t, p.id>>)
        /\ Flag(e, "C15.ZeroProbNever", e.probs[IF p.prio = "I" THEN 1 ELSE IF p.prio = "Q" THEN 2 ELSE 3] > 0, <<"tick", ev.t, p.prio, e.probs>>)
   /\ (IF decidable THEN TRUE ELSE Bump(RUndecided, 1))
